@@ -282,7 +282,7 @@ def scenario(sim: Sim) -> None:
 
         sim.loop.idle_hooks.append(on_idle)
         ctl_tasks: list[Any] = []
-        nops = ch.int_between("nops", 3, 14)
+        nops = ch.int_between("nops", 3, sim.scale(14, 30))
         for _ in range(nops):
             i = ch.draw("op_actor", nact)
             o, rec = objs[i], recs[i]
